@@ -18,6 +18,7 @@ import GoaktVerif.Lemmas.C04.HeapMbox
 import GoaktVerif.Lemmas.C04.LockedInv
 import GoaktVerif.Lemmas.C04.RingMain
 import GoaktVerif.Lemmas.C04.RingTrace2
+import GoaktVerif.Lemmas.C04.SegTrace5
 
 namespace GoaktVerif.C04
 open GoaktVerif.Model.C04 GoaktVerif.Spec.C04
@@ -432,5 +433,73 @@ theorem ring_fifo_exactly_once (ct cap : Nat) (progs : List (List Op)) (wf : Rin
   have h := tr_run ct cap progs wf sched c0 [] Reach.init (tr_init ct cap progs)
   simp only [List.nil_append] at h
   exact ⟨h.len, h.ctx, h.deqd⟩
+
+/-! ### `UnboundedSegmentedMailbox` (repaired code): slot discipline for all schedules
+
+Owicki–Gries proof (`SegInv.P/J/K` through `reach_og`): any number of producers, one consumer,
+arbitrary programs, all schedules. -/
+
+open SegInv in
+/-- THE HEAD-ADVANCE RULE (what F7 violated): whenever the consumer is about to move `head` to the next
+segment (`Store:head`), or has found the segment exhausted (`Load:next`), ALL `segSize` slots of the
+segment it leaves have been consumed; and in every segment `deqIdx ≤ min(writeIdx, segSize)` -/
+theorem segmented_head_advance_rule (ct n : Nat) (progs : List (List Op)) (wf : SegWF ct progs)
+    (c : Cfg Segmented.algo) (hr : Reach Segmented.algo (initCfg Segmented.algo (Segmented.init n) progs) c) :
+    (∀ g, (c.sh.segs g).deqIdx ≤ c.sh.segSize ∧ (c.sh.segs g).deqIdx ≤ (c.sh.segs g).writeIdx) ∧
+    (∀ (i : Nat) (t : Thread Segmented.PC) (seg nx : Nat), c.threads[i]? = some t → t.pc = some (.d9 seg nx) →
+        seg = c.sh.head ∧ (c.sh.segs seg).deqIdx = c.sh.segSize) ∧
+    (∀ (i : Nat) (t : Thread Segmented.PC) (seg : Nat), c.threads[i]? = some t → t.pc = some (.d8 seg) →
+        seg = c.sh.head ∧ (c.sh.segs seg).deqIdx = c.sh.segSize) := by
+  obtain ⟨hP, hJ, _⟩ := seg_inv ct n progs wf c hr
+  exact ⟨hP.deqLe, fun i t seg nx hi hpc => (hJ i t hi).d9 seg nx hpc, fun i t seg hi hpc => (hJ i t hi).d8 seg hpc⟩
+
+open SegInv in
+/-- NO MESSAGE CAN BE SKIPPED: a producer about to store its message targets a slot that is reserved,
+still empty and NOT YET CONSUMED (`deqIdx ≤ idx < segSize`, so by the head-advance rule the consumer
+has not left that segment and will reach the slot); two producers never hold the same slot; and the
+consumer only clears / counts a slot in which it has seen a message -/
+theorem segmented_no_skipped_slot (ct n : Nat) (progs : List (List Op)) (wf : SegWF ct progs)
+    (c : Cfg Segmented.algo) (hr : Reach Segmented.algo (initCfg Segmented.algo (Segmented.init n) progs) c) :
+    (∀ (i : Nat) (t : Thread Segmented.PC) (v g idx : Nat), c.threads[i]? = some t → t.pc = some (.e3 v g idx) →
+        idx < c.sh.segSize ∧ idx < (c.sh.segs g).writeIdx ∧ (c.sh.segs g).deqIdx ≤ idx ∧ (c.sh.segs g).data idx = none) ∧
+    (∀ (i j : Nat) (ti tj : Thread Segmented.PC) (v g idx v' g' idx' : Nat), i ≠ j → c.threads[i]? = some ti →
+        c.threads[j]? = some tj → ti.pc = some (.e3 v g idx) → tj.pc = some (.e3 v' g' idx') → ¬ (g = g' ∧ idx = idx')) ∧
+    (∀ (i : Nat) (t : Thread Segmented.PC) (seg deq v : Nat), c.threads[i]? = some t → t.pc = some (.d5 seg deq v) →
+        seg = c.sh.head ∧ deq = (c.sh.segs seg).deqIdx ∧ deq < c.sh.segSize ∧ (c.sh.segs seg).data deq = some v) := by
+  obtain ⟨_, hJ, hK⟩ := seg_inv ct n progs wf c hr
+  refine ⟨fun i t v g idx hi hpc => (hJ i t hi).e3 v g idx hpc,
+    fun i j ti tj v g idx v' g' idx' hij hi hj h1 h2 => (hK i j ti tj hij hi hj).1 v g idx v' g' idx' h1 h2, ?_⟩
+  intro i t seg deq v hi hpc
+  obtain ⟨a, b, c', _, e⟩ := (hJ i t hi).d5 seg deq v hpc
+  exact ⟨a, b, c', e⟩
+
+open SegInv in
+/-- the list of segments, every reachable configuration: every linked segment except the last is full
+and points to the segment one position later; unlinked (freshly allocated or discarded) segments are
+untouched; the consumer has fully consumed the segments before `head` and not touched those after -/
+theorem segmented_segment_list (ct n : Nat) (progs : List (List Op)) (wf : SegWF ct progs)
+    (c : Cfg Segmented.algo) (hr : Reach Segmented.algo (initCfg Segmented.algo (Segmented.init n) progs) c) :
+    P2 c.sh := (seg_inv2 ct n progs wf c hr).1.2
+
+open SegInv in
+/-- EXACTLY-ONCE and FIFO for the segmented mailbox, every schedule: with `resv` the messages in the
+order in which `Add:writeIdx` handed out slots (the reservation order), the number of reservations
+is `ord(last) * segSize + min(writeIdx(last), segSize)`, and the values returned by `Dequeue` (in
+order, including one taken out of its slot but not yet returned) are exactly the first
+`consumed (+1)` messages of `resv`, where `consumed = ord(head) * segSize + deqIdx(head)` — nothing
+lost, nothing duplicated, nothing reordered, across any number of segment boundaries. -/
+theorem segmented_fifo_exactly_once (ct n : Nat) (progs : List (List Op)) (wf : SegWF ct progs) (sched : List Nat) :
+    let c0 : Cf := initCfg Segmented.algo (Segmented.init n) progs
+    let c := runSched c0 sched
+    let resv := resvTrace c0 sched
+    resv.length = (c.sh.segs c.sh.last).ord * c.sh.segSize + min (c.sh.segs c.sh.last).writeIdx c.sh.segSize ∧
+    (∀ (t : Thread Segmented.PC), c.threads[ct]? = some t →
+        consumed c.sh + inflight t.pc ≤ resv.length ∧ deqdT t = resv.take (consumed c.sh + inflight t.pc)) ∧
+    (∀ g idx, (c.sh.segs g).linked = true → idx < c.sh.segSize → consumed c.sh ≤ pos c.sh g idx → pos c.sh g idx < resv.length →
+        (c.sh.segs g).data idx = none ∨ (c.sh.segs g).data idx = resv[pos c.sh g idx]?) := by
+  intro c0 c resv
+  have h := tr_runS ct n progs wf sched c0 [] Reach.init (tr_initS ct n progs)
+  simp only [List.nil_append] at h
+  exact ⟨h.len, fun t ht => ⟨h.bound t ht, h.deqd t ht⟩, h.data⟩
 
 end GoaktVerif.C04
